@@ -68,12 +68,14 @@ class C12(Prop):
     search_budget = {'quick': 10000, 'thorough': 200000}
     rule = ('case = (cloud, job-private manager, 0..3 locations, 0..5 pools with worker type / cores from the valid-cores tables, preemptible, '
             'label, per-location prices with ties; request = machine_type | (cpu string, memory = lowmem/standard/highmem or a size string, '
-            'storage string, preemptible, pool_label)); memory sizes are boundary-directed (ceil(k*per_core/1000) -1/0/+1 for packable and '
+            'storage string, preemptible, pool_label), sent as a job through the real validate_and_clean_jobs in modern or deprecated spelling '
+            '(pvc_size for resources.storage with the resources key absent / empty / present, command+image for process, gcsfuse, parent_ids)); memory sizes are boundary-directed (ceil(k*per_core/1000) -1/0/+1 for packable and '
             'arbitrary k), storage at 0, 10Gi+-1 and the cloud limit +-1; non-trivial = a placement, or an unsatisfiable answer with at '
             'least one collection matching cloud/preemptibility/label; distinct by full case')
     trusted = ['harness/extract/machines.py (table translator)',
                'the resource block of _create_jobs is taken by AST (statements from `resources = spec.get(\'resources\')` to '
                '`resources[\'preemptible\'] = preemptible`) and executed in the imported front_end module namespace',
+               'the job is first passed through the real batch.front_end.validate.validate_and_clean_jobs (schema + deprecated keys)',
                'PoolConfig.price_per_hour and possible_cloud_locations replaced by case-supplied integer tables',
                "harness's own reading of size strings (value * unit, rounded up) used to state what was requested"]
     assumptions = ['job spec cloud == deployment CLOUD (the job schema has no cloud key)',
@@ -101,6 +103,9 @@ class C12(Prop):
         import batch.front_end.front_end as fe
         import batch.inst_coll_config as icc
         self.web, self.fe, self.icc = web, fe, icc
+        import batch.front_end.validate as validate_mod
+        from hailtop.utils.validate import ValidationError
+        self.validate_and_clean_jobs, self.ValidationError = validate_mod.validate_and_clean_jobs, ValidationError
         self.block = self._resource_block(repo, fe)
         case_box = self.case_box = {}
 
@@ -196,12 +201,40 @@ class C12(Prop):
             r['storage'] = req['storage'][1]
         return r
 
+    def _job(self, c):
+        """the job as the client sends it: modern or deprecated spellings (validate.py: pvc_size -> resources.storage,
+        command/image -> process, gcsfuse -> cloudfuse, parent_ids -> absolute_parent_ids)"""
+        r = c['req']
+        sp = c.get('spelling') or {}
+        job = {'job_id': 1}
+        if sp.get('process') == 'deprecated':
+            job['command'] = ['true']
+            job['image'] = 'ubuntu'
+        else:
+            job['process'] = {'type': 'docker', 'image': 'ubuntu', 'command': ['true']}
+            if sp.get('mount_docker_socket_false'):
+                job['process']['mount_docker_socket'] = False
+        resources = self._resources_dict(r)
+        if resources or sp.get('resources_key') != 'absent':
+            job['resources'] = resources            # an empty dict unless the case says the key is absent
+        if r.get('pvc_size') is not None:
+            job['pvc_size'] = r['pvc_size'][1]
+        if sp.get('extras'):
+            job['gcsfuse'] = [{'bucket': 'b', 'mount_path': '/b', 'read_only': True}]
+            job['parent_ids'] = []
+            job['always_run'] = False
+        return job
+
     def impl(self, c):
         self.case_box['locs'] = c['locs']
         self.case_box['prices'] = {p['name']: p['prices'] for p in c['pools']}
         configs = self._configs(c)
-        spec = {'process': {'type': 'docker', 'image': 'ubuntu', 'command': ['true']}, 'resources': self._resources_dict(c['req'])}
+        spec = self._job(c)
         app = {'inst_coll_configs': configs, 'feature_flags': {}}
+        try:
+            self.validate_and_clean_jobs([spec])       # the real schema check + rewrite of deprecated keys (mutates spec)
+        except self.ValidationError:
+            return ['reject invalid']
         try:
             name, res = _drive(self.block(spec, app, c['cloud'], c['cloud'], (1, 1), 1, 1))
         except self.web.HTTPBadRequest as e:
@@ -226,7 +259,8 @@ class C12(Prop):
             return '~' if x is None else f(x)
         t += ['R', opt(r.get('machine_type'), lambda s: '=' + s), opt(r.get('pool_label'), lambda s: '=' + s),
               opt(r.get('preemptible'), lambda b: '1' if b else '0'), opt(r.get('cpu'), lambda x: str(x[0])),
-              opt(r.get('memory'), lambda m: 's=' + m[1] if m[0] == 'sym' else 'b%d' % m[1]), opt(r.get('storage'), lambda x: str(x[0]))]
+              opt(r.get('memory'), lambda m: 's=' + m[1] if m[0] == 'sym' else 'b%d' % m[1]), opt(r.get('storage'), lambda x: str(x[0])),
+              opt(r.get('pvc_size'), lambda x: str(x[0]))]
         return [' '.join(t)]
 
     # ---- the property on the real output -------------------------------------------------------------
@@ -237,7 +271,10 @@ class C12(Prop):
         cloud = c['cloud']
         label = r.get('pool_label') or ''
         pre = d['preemptible'] if r.get('preemptible') is None else r['preemptible']
-        storage = size_bytes(d['storage']) if r.get('storage') is None else r['storage'][0]
+        if r.get('pvc_size') is not None:
+            storage = r['pvc_size'][0]          # the deprecated spelling of the same request
+        else:
+            storage = size_bytes(d['storage']) if r.get('storage') is None else r['storage'][0]
         mt = r.get('machine_type')
         if mt:
             return dict(route='job-private', mt=mt, label=label, pre=pre, storage=storage)
@@ -256,6 +293,10 @@ class C12(Prop):
         else:
             mem_bytes = mem[1]
         return dict(route='pool', cores=cores, mem=mem_bytes, wt=wt, label=label, pre=pre, storage=storage)
+
+    def _show(self, c):
+        j = self._job(c)
+        return {k: j[k] for k in ('resources', 'pvc_size') if k in j}
 
     def _pool_ok(self, p):
         return p['worker_type'] in self.mem_per_core.get(p['cloud'], {})
@@ -302,7 +343,7 @@ class C12(Prop):
         if o == 'err':
             if malformed:
                 return None   # outside the assumption "pool worker types are known to their cloud"
-            return f'request {self._resources_dict(r)} (accepted by the job schema) ends in an internal error instead of a placement or a rejection'
+            return f'request {self._show(c)} (accepted by the job schema) ends in an internal error instead of a placement or a rejection'
         mt = r.get('machine_type')
         really_invalid = False
         if mt is not None:
@@ -310,10 +351,12 @@ class C12(Prop):
             really_invalid = (mt not in self.machines[cloud] or r.get('cpu') is not None or r.get('memory') is not None or bool(q['label']))
         else:
             really_invalid = not is_pow2_quarter(q['cores'])
+        if r.get('pvc_size') is not None and r.get('storage') is not None:
+            really_invalid = True        # storage given twice (deprecated and current key)
         if o == 'reject invalid':
-            return None if really_invalid else f'well-formed request {self._resources_dict(r)} rejected as malformed'
+            return None if really_invalid else f'well-formed request {self._show(c)} rejected as malformed'
         if really_invalid:
-            return f'malformed request {self._resources_dict(r)} was not rejected as malformed: {o}'
+            return f'malformed request {self._show(c)} was not rejected as malformed: {o}'
         if o == 'reject unsatisfiable':
             if q['route'] == 'job-private':
                 if c['jpim']['cloud'] == cloud and q['storage'] <= self.max_storage[cloud]:
@@ -330,7 +373,7 @@ class C12(Prop):
             return f'unreadable answer {o!r}'
         name, cores, mem, sgib = m.group(1), int(m.group(2)), int(m.group(3)), int(m.group(4))
         if sgib * GIB < q['storage']:
-            return f'granted storage {sgib} GiB is less than the requested {q["storage"]} bytes'
+            return f'granted storage {sgib} GiB is less than the requested {q["storage"]} bytes (job {self._show(c)})'
         if sgib * GIB > self.max_storage[cloud]:
             return f'granted storage {sgib} GiB exceeds the largest disk of cloud {cloud}'
         if q['route'] == 'job-private':
@@ -455,7 +498,26 @@ class C12(Prop):
                     if rng.random() < 0.1:
                         b = rng.choice([0, 1, rng.randint(0, 2 ** 36), 2 ** 50])
                     req['memory'] = ['bytes', b, self._size_string(rng, b)]
-            yield {'cloud': cloud, 'jpim': jpim, 'locs': locs, 'pools': pools, 'req': req}
+            spelling = {}
+            if rng.random() < 0.3:
+                # the deprecated storage key, alone (no / empty resources) or next to modern keys, rarely next to resources.storage
+                if 'storage' in req and rng.random() < 0.9:
+                    req['pvc_size'] = req.pop('storage')
+                else:
+                    b = rng.choice([1, 10 * GIB, 50 * GIB, rng.randint(1, 400) * GIB])
+                    req['pvc_size'] = [b, self._size_string(rng, b)]
+                if rng.random() < 0.5:
+                    for k in ('cpu', 'memory', 'preemptible', 'pool_label', 'machine_type'):
+                        req.pop(k, None)
+            if not [k for k in req if k != 'pvc_size']:
+                spelling['resources_key'] = rng.choice(['absent', 'empty'])
+            if rng.random() < 0.3:
+                spelling['process'] = 'deprecated'
+            elif rng.random() < 0.2:
+                spelling['mount_docker_socket_false'] = True
+            if rng.random() < 0.2:
+                spelling['extras'] = True
+            yield {'cloud': cloud, 'jpim': jpim, 'locs': locs, 'pools': pools, 'req': req, 'spelling': spelling}
 
     def classify(self, c, out):
         o = out[0]
@@ -480,6 +542,10 @@ class C12(Prop):
                 nontrivial = True
         elif q['route'] == 'job-private' and (o.startswith('ok') or o == 'reject unsatisfiable'):
             nontrivial = True
+        if c['req'].get('pvc_size') is not None:
+            tags.append('storage-as-pvc_size:' + ((c.get('spelling') or {}).get('resources_key') or 'with-resources'))
+        if (c.get('spelling') or {}).get('process') == 'deprecated':
+            tags.append('process-as-command/image')
         if c['req'].get('memory') and c['req']['memory'][0] == 'bytes':
             tags.append('memory=bytes')
         elif q['route'] == 'pool':
@@ -488,7 +554,7 @@ class C12(Prop):
 
     def finding_key(self, c, msg):
         r = c['req']
-        return json.dumps({'cloud': c['cloud'], 'req': r, 'pools': c['pools'], 'jpim': c['jpim']}, sort_keys=True)
+        return json.dumps({'cloud': c['cloud'], 'req': r, 'pools': c['pools'], 'jpim': c['jpim'], 'spelling': c.get('spelling')}, sort_keys=True)
 
     def shrink(self, c, fails):
         cur = json.loads(json.dumps(c))
@@ -518,6 +584,16 @@ class C12(Prop):
                 if attempt(cand):
                     changed = True
                     break
+            if changed:
+                continue
+            sp = cur.get('spelling') or {}
+            for k in ('extras', 'process', 'mount_docker_socket_false'):
+                if k in sp:
+                    cand = json.loads(json.dumps(cur))
+                    del cand['spelling'][k]
+                    if attempt(cand):
+                        changed = True
+                        break
             if changed:
                 continue
             if cur['locs'] > 1:
